@@ -94,7 +94,7 @@ def gen_prince_world(t):
         if tr.ok:
             return {"kind": "trained", "passwords": pws[:12], "opts": opts}, tr.rule_dir
     wr = scratch.fresh_disk()
-    spec = worlds.gen_syn(t, allow_m=False, max_pts=100, pools=["tie", "dyadic", "normalised", "decimal"])
+    spec = worlds.gen_syn(t, allow_m=False, max_pts=100, pools=["tie", "dyadic", "normalised", "decimal", "longtail", "tiny"])
     # widen some groups to 1-8 equally probable words
     for var, groups in spec["vars"].items():
         if var[0] in "AD" and t.chance(1, 2):
@@ -102,7 +102,7 @@ def gen_prince_world(t):
             used = {v for gg in groups for v in gg[1]}
             g[1].extend(worlds._values_for(t, var[0], int(var[1:]), t.between(1, 6), used, False))
     names = [v for v in spec["vars"] if v[0] != "C"]
-    pr = worlds._descending_probs(t, t.choice(["normalised", "tie", "dyadic"]), min(5, len(names)))
+    pr = worlds._descending_probs(t, t.choice(["normalised", "tie", "dyadic", "longtail"]), min(5, len(names)))
     spec["prince"] = [[n, pr[min(i, len(pr) - 1)]] for i, n in enumerate(names)]
     rdir = os.path.join(wr, "Rules", "R")
     worlds.write_ruleset(spec, rdir)
